@@ -631,6 +631,10 @@ pub fn gen_conj_program(t: &mut Tape) -> Program {
         p.traits.push(new_trait(name, 0, TraitKind::Inductive));
     }
     let nullary = |t: &mut Tape| Ty::Adt(t.choose(n0), vec![]);
+    // trait 0 has several ground facts, so that `T: Trait0` is ambiguous on its own
+    for c in 0..n0.min(2 + t.choose(2)) {
+        p.impls.push(ImplDef { nparams: 0, head: TRef { tr: 0, args: vec![Ty::Adt(c, vec![])] }, wcs: vec![], positive: true, values: vec![], upstream: false });
+    }
     let nf = 3 + t.choose(6);
     for _ in 0..nf {
         let tr = t.choose(nt);
@@ -646,7 +650,8 @@ pub fn gen_conj_program(t: &mut Tape) -> Program {
         let tr = t.choose(nt);
         let c = if t.chance(70) { s } else { w };
         let nw = t.choose(3);
-        let wcs = (0..nw).map(|_| TRef { tr: t.choose(nt), args: vec![Ty::Param(0)] }).collect();
+        // usually constrained by the many-facts trait: the impl then yields definite but partial guidance
+        let wcs = (0..nw).map(|_| TRef { tr: if t.chance(60) { 0 } else { t.choose(nt) }, args: vec![Ty::Param(0)] }).collect();
         p.impls.push(ImplDef { nparams: 1, head: TRef { tr, args: vec![Ty::Adt(c, vec![Ty::Param(0)])] }, wcs, positive: true, values: vec![], upstream: false });
     }
     // conjunctive impls
